@@ -47,10 +47,16 @@ GROUP_B = ["powell", "bfgs", "lbfgs"]
 
 def gen_table(rng, big=False):
     S = rng.randrange(2, 16 if big else 12)
-    mode = rng.choice(["ints", "plateau", "dyadic", "cliff", "neg"])
+    mode = rng.choice(["ints", "plateau", "dyadic", "cliff", "neg"] * 2 + ["bigint", "tiny", "large_close"])
     vals = []
     for _ in range(S):
-        if mode == "ints":
+        if mode == "bigint":  # exact integer costs beyond 2**53 (packed lexicographic costs, picoseconds)
+            vals.append(rng.choice([1, 1, -1]) * (2 ** 60 + rng.randrange(-40, 40)))
+        elif mode == "tiny":  # the whole range is far below any "noise" threshold, yet every value is an exact double
+            vals.append(rng.randrange(-40, 40) * 2.0 ** -60)
+        elif mode == "large_close":  # large offset, small exact differences
+            vals.append(2.0 ** 40 + rng.randrange(-40, 40) / 1024.0)
+        elif mode == "ints":
             vals.append(rng.randrange(-5, 20))
         elif mode == "plateau":
             vals.append(rng.choice([0, 0, 1, 1, 2, 7]))
@@ -85,7 +91,10 @@ def gen_func(rng, dims=None):
         if t == "cliff":
             term["h"] = rng.choice([-8.0, 8.0, 100.0])
         terms.append(term)
-    return {"type": "func", "n": n, "terms": terms}
+    land = {"type": "func", "n": n, "terms": terms}
+    if rng.random() < 0.15:
+        land["scale_exp"] = rng.choice([-50, -50, 30])  # exact power-of-two rescaling of the whole landscape
+    return land
 
 
 def func_value(terms, x):
@@ -148,6 +157,7 @@ def generate(rng, tier):
                  "min_temp": rng.choice([1e-8, 0.1, 5.0]), "max_iter": rng.choice(mi_pool)}
         elif solver == "tabu":
             p = {"cooldown": rng.randrange(1, 6), "max_iter": rng.choice(mi_pool), "max_no_improve": rng.choice([1, 2, 5, 20, 100])}
+            case["move_labels"] = rng.choice(["pair", "pair", "pair", "target", "none", "mixed"])  # any hashable is a legal move label
         elif solver in ("lns", "alns"):
             p = {"accept": rng.choice(["improving", "accept_all", "simulated_annealing", "peer_refuse", "peer_flip", "peer_worse_only"]),
                  "start_temp": rng.choice([0.1, 100.0]), "cooling_rate": rng.choice([0.5, 0.9995]),
@@ -275,9 +285,11 @@ def run_solver(case, policy, negate=False, minimize=None):
     else:
         terms = land["terms"]
 
+        scale = 2.0 ** land.get("scale_exp", 0)
+
         def f(x):
             xv = byval(x)
-            v = func_value(terms, xv)
+            v = func_value(terms, xv) * scale
             if negate:
                 v = -v
             run.history.append((xv, v))
@@ -286,7 +298,7 @@ def run_solver(case, policy, negate=False, minimize=None):
 
         def grad(x):
             g = func_grad(terms, x)
-            return [sg * gi for gi in g]
+            return [sg * gi * scale for gi in g]
 
     kw = {"minimize": minimize, "on_progress": prog if case["interval"] else None, "progress_interval": case["interval"]}
     seed = case["seed"]
@@ -344,7 +356,10 @@ def run_solver(case, policy, negate=False, minimize=None):
 
                 def neighbors_t(s):
                     s = unbox(s)
-                    return [((s, t), box(t)) for t in nb[s]]
+                    ml = case.get("move_labels", "pair")
+                    lab = {"pair": lambda t: (s, t), "target": lambda t: t, "none": lambda t: None,
+                           "mixed": lambda t: None if t % 2 == 0 else (s, t)}[ml]
+                    return [(lab(t), box(t)) for t in nb[s]]
 
                 run.result = solvor_mod("tabu").tabu_search(box(case["start"]), f, neighbors_t, cooldown=p["cooldown"],
                                                            max_iter=p["max_iter"], max_no_improve=p["max_no_improve"], seed=seed, **kw)
@@ -447,7 +462,7 @@ def true_value(case, sol, negate=False):
             return None
         if len(xs) != land["n"]:
             return None
-        v = func_value(land["terms"], byval(sol))
+        v = func_value(land["terms"], byval(sol)) * 2.0 ** land.get("scale_exp", 0)
     return -v if negate else v
 
 
